@@ -614,6 +614,11 @@ Definition mon_svc1 (pre : list entry) (o : op) (b : obs) (post : list entry) : 
                  | None => false
                  end
       then Some "C15:registration-below-min-recorded"
+      (* an answered registration at or above the reported minimum has been stored (safe point MaxUint64 apart: LoadMin
+         does not see such an entry and, if it is the only one, re-creates gc_worker's entry with 0 over it) *)
+      else if (0 <? ttl)%Z && (msp <=? sp)%Z && (sp <? maxU64)%Z && is_clean i
+              && negb (match find_text (text_of i) post with Some e => (e_sp e =? sp)%Z | None => false end)
+      then Some "C15:acknowledged-registration-not-stored"
       else if negb (existsb (fun e => is_gcw (e_text e) && (e_exp e =? maxI64)%Z) post)
       then Some (if is_clean i then "C15:gc-worker-entry-missing-or-finite" else "C15:gc-worker-entry-clobbered:service-id-path-escape")
       else if negb (forallb (live_b now) post)
@@ -624,6 +629,9 @@ Definition mon_svc1 (pre : list entry) (o : op) (b : obs) (post : list entry) : 
   | OSvcIl i ttl sp now lo hi _ _, BMin mt mttl msp =>
       if ((now <? lo - clock_slack) || (hi + clock_slack <? now))%Z
       then Some "C15:answered-ttl-inconsistent-with-stored-expiry"
+      else if (0 <? ttl)%Z && (msp <=? sp)%Z && (sp <? maxU64)%Z && is_clean i
+              && negb (match find_text (text_of i) post with Some e => (e_sp e =? sp)%Z | None => false end)
+      then Some "C15:acknowledged-registration-not-stored"
       else if negb (forallb (fun e => negb (live_b now e) || (msp <=? e_sp e)%Z) post)
       then Some "C15:min-above-live-service"
       else if negb (existsb (fun e => is_gcw (e_text e) && (e_exp e =? maxI64)%Z) post)
@@ -634,6 +642,9 @@ Definition mon_svc1 (pre : list entry) (o : op) (b : obs) (post : list entry) : 
   | OSvcX i ttl sp now lo hi _ _ _, BMin mt mttl msp =>
       if ((now <? lo - clock_slack) || (hi + clock_slack <? now))%Z
       then Some "C15:answered-ttl-inconsistent-with-stored-expiry"
+      else if (0 <? ttl)%Z && (msp <=? sp)%Z && (sp <? maxU64)%Z && is_clean i
+              && negb (match find_text (text_of i) post with Some e => (e_sp e =? sp)%Z | None => false end)
+      then Some "C15:acknowledged-registration-not-stored"
       else if negb (forallb (fun e => negb (live_b now e) || (msp <=? e_sp e)%Z) post)
       then Some "C15:min-above-live-service"
       else if negb (existsb (fun e => is_gcw (e_text e) && (e_exp e =? maxI64)%Z) post)
